@@ -1,10 +1,15 @@
 """C12 — the event stream delivers each event once to each current subscriber, in order."""
 from . import events_common as EC
-from .events_common import COQ_FILES, TRUSTED_BASE
+from .events_common import TRUSTED_BASE
+from . import c10 as R10
+
+COQ_FILES = EC.COQ_FILES + ["Registry.v", "RegistryProofs.v", "RespawnExec.v", "RespawnSound.v", "PropsRegistry.v"]
 
 THEOREMS = ["C12_once_between_sub_and_unsub", "C12_once_between_sub_and_unsub_alive",
             "C12_subscription_follows_the_actor", "C12_sub_idempotent", "C12_unsub_by_value", "C12_broadcast_order",
-            "C12_pointer_keys_refuted", "C12_oracle_holds_of_model"]
+            "C12_pointer_keys_refuted", "C12_oracle_holds_of_model",
+            # "duplicate id ... published for every such occurrence": one event per losing Spawn / SpawnChild
+            "C10_duplicate_is_noop", "C10_duplicate_child_is_noop", "C10_respawn_oracle_holds_of_model"]
 RULE = ("(seq) histories of Subscribe / Unsubscribe / BroadcastEvent / stop / respawn on a real engine over PID values of "
         "recording actors, each value available through 2 distinct *PID objects with equal address and id (object 0 = the "
         "PID Spawn returned); 'stop' poisons the actor and waits, 'respawn' spawns a new recording actor under the same "
@@ -45,8 +50,27 @@ ASSUMPTIONS = [
     "handled one at a time; the theorems quantify over the resulting serialisation",
     "the last sentence of C12 (lifecycle events are published for every occurrence) is covered by the process-layer "
     "checks C04-C07 (Proc.v emits EvInitialized/EvStarted/EvStopped/EvRestarted/dead letters and the harness "
-    "compares them), by C10 (duplicate id) and by C09 (dead letter); it is not restated here",
+    "compares them) and by C09 (dead letter); for the duplicate-id event it is checked here too, by a reduced run of C10's "
+    "respawn family (part duplicate_id_events; theorems C10_duplicate_is_noop, C10_duplicate_child_is_noop)",
     "the event stream's own PID is never subscribed to the event stream (it would forward every event to itself)",
 ]
 
-PARTS = [EC.Seq12(), EC.Conc12()]
+class DuplicateIdEvents(R10.Respawn):
+    """the last sentence of C12 for the duplicate-id event: every losing Spawn and SpawnChild (and every loser of a
+    race of real goroutines) publishes one ActorDuplicateIdEvent, observed at a subscribed monitor after every
+    operation; a reduced run of C10's respawn family (scenario classes, all histories up to length 2, some random)"""
+    name = "duplicate_id_events"
+
+    def generate(self, rng, tier):
+        cases = R10.Respawn.generate(self, rng, tier)
+        keep, nrand = [], 0
+        for c in cases:
+            if c["class"] == "scenario" or (c["class"] == "exhaustive" and len(c["input"]["ops"]) <= (2 if tier == "quick" else 3)):
+                keep.append(c)
+            elif c["class"] == "random" and nrand < (40 if tier == "quick" else 1000):
+                nrand += 1
+                keep.append(c)
+        return keep
+
+
+PARTS = [EC.Seq12(), EC.Conc12(), DuplicateIdEvents()]
